@@ -21,7 +21,9 @@ def run(chk, F):
     chk.assume("std/core/alloc callees not in the may-panic list do not panic; allocation failure is out of scope")
     chk.assume("one query or definitions file drives fewer than 2^31 iterations of any counter (D6)")
     chk.assume("the bundled database is loaded (table entries backed by data checks hold for it; a custom database can violate them)")
-    chk.guard("panic-site", "K1", lambda: k1.run(chk, F, "C04"))
+    res = chk.guard("panic-site", "K1", lambda: k1.run(chk, F, "C04"))
+    if res:
+        chk.guard("loop-leaves-on-eof", "parsers", lambda: k1.eof_exits(chk, F, res[1]))
     chk.guard("context-stays-usable", "helpers::eval", lambda: usable(chk, F))
 
 
